@@ -38,7 +38,7 @@ var c09Ops = []string{
 	"slog.Info", "slog.With+WithGroup", "slog.Handler.WithAttrs+Handle", "slog.PendingGroups.WithGroup", "slog.PendingGroups.WithAttrs",
 	"BWS.Write", "BWS.Sync", "BWS.Stop", "Locked.Write", "Locked.Sync",
 	"LazyChild.Info", "LazyChild.With", "yield",
-	"BWSoverLock.Write", "BWSoverLock.Sync", "ErrnoLocked.Write+Sync", "ErrnoLocked.Write+Sync", "ErrnoLogger.Error+Sync",
+	"BWSoverLock.Write", "BWSoverLock.Sync", "BWSoverUnsafe.Write(small)", "BWSoverUnsafe.Write(oversized)", "BWSoverUnsafe.Write(oversized)", "BWSoverUnsafe.Sync", "ErrnoLocked.Write+Sync", "ErrnoLocked.Write+Sync", "ErrnoLogger.Error+Sync",
 	"ReflectCtx.Info(reflect)", "ReflectCtx.Info(reflect)", "ReflectCtx.With(reflect)", "Logger.Info(unencodable)", "Logger.Error(errors)", "Logger.Info(nested)",
 	"Logger.Info(unencodable-last)", "Logger.Info(unencodable-last)", "DeepStack.Error", "DeepStack.Error", "Logger.Info(big)", "StdLog.Print", "grpc.Info", "grpc.V", "zapio.Write", "Logger.Check(disabled)", "Logger.Info(stringers)",
 }
@@ -118,6 +118,10 @@ func c09Run(t interface{ Fatalf(string, ...any) }, p *c09Program) (sharedWriters
 	// a buffered syncer on top of the SAME locked syncer the JSON core writes to: its flushes must take that lock
 	bwsOverLock := &zapcore.BufferedWriteSyncer{WS: locked, Size: 32, FlushInterval: time.Millisecond}
 	defer bwsOverLock.Stop()
+	// a buffered syncer over a destination that is NOT safe for concurrent use: BufferedWriteSyncer is documented
+	// to be safe for concurrent use by itself, whatever the size of the writes
+	bwsUnsafe := &zapcore.BufferedWriteSyncer{WS: &unsafeBuf{}, Size: 16, FlushInterval: time.Millisecond}
+	defer bwsUnsafe.Stop()
 	// a locked syncer whose destination cannot be synced (what fsync reports for terminals and pipes)
 	errnoLocked := zapcore.Lock(&c09ErrnoBuf{})
 	errnoLogger := zap.New(zapcore.NewCore(zapcore.NewJSONEncoder(zapcore.EncoderConfig{MessageKey: "m"}), errnoLocked, zapcore.DebugLevel), zap.ErrorOutput(errnoLocked),
@@ -277,7 +281,13 @@ func c09Run(t interface{ Fatalf(string, ...any) }, p *c09Program) (sharedWriters
 						_ = h.Handle(context.Background(), r)
 					case "slog.PendingGroups.WithAttrs":
 						_ = pending.WithAttrs([]slog.Attr{slog.Int("a", g)}).Handle(context.Background(), slog.NewRecord(time.Unix(1, 0), slog.LevelWarn, "i", 0))
-					case "BWSoverLock.Write":
+					case "BWSoverUnsafe.Write(small)":
+					_, _ = bwsUnsafe.Write([]byte("small\n"))
+				case "BWSoverUnsafe.Write(oversized)":
+					_, _ = bwsUnsafe.Write([]byte("an entry that is larger than the whole buffer of the syncer ......\n"))
+				case "BWSoverUnsafe.Sync":
+					_ = bwsUnsafe.Sync()
+				case "BWSoverLock.Write":
 						_, _ = bwsOverLock.Write([]byte("buffered over the shared lock, longer than the buffer ............\n"))
 					case "BWSoverLock.Sync":
 						_ = bwsOverLock.Sync()
